@@ -38,7 +38,7 @@ MANIFEST = {
                  'survivor model and with routers freshly built from the survivors',
     'text': 'All histories up to depth 3 (quick) / 5 (thorough) over a menu of 40 operations are replayed on fresh '
             'applications; every distinct concrete router state is probed on all paths and methods and compared with the '
-            'survivor model, with freshly built routers (two insertion orders) and through Ombott.__call__ (hook invocations).',
+            'survivor model, with freshly built routers (two insertion orders) and through Ombott.__call__ (hook invocations). A sub-universe is searched one level deeper on a router that is in use (all probe paths looked up after every edit).',
     'note': 'Bounds: 10 rules, 4 hook rules, 3 names, depth as stated. Trusted: the survivor model here, vf/refrouter.py.',
 }
 
